@@ -10,6 +10,7 @@
     generator wrote. *)
 From Coq Require Import List NArith Bool.
 From WTP Require Import Base.Str Model.Attrs Proofs.AttrsProofs Model.Tables Proofs.TablesProofs.
+From WTP Require Model.VbarSplit Proofs.VbarSplitProofs.
 Import ListNotations.
 
 (* Every written table -- "{|" with optional attributes, optional "|+" caption, any number of "|-" rows with optional
@@ -53,6 +54,15 @@ Example c03_a_written_table :
               Row None true (Body None [IText (9%nat, true)]) [Cell (SBol false) (Body None [])]] in
   wf_table t = true /\ parse (render_table t) = Some [CN (tree_table t)].
 Proof. split; reflexivity. Qed.
+
+(* Argument lists: the text between the brackets of a template call, argument reference or link is cut at every "|"
+   (core.py: vbar_split; texts with "<" are outside this model).  Every non-empty list of written arguments free of
+   "|" and "<" -- empty arguments included -- comes back from the cut of its "|"-joined text. *)
+Theorem c03_argument_lists_are_the_written_ones :
+  forall args, args <> [] -> forallb VbarSplit.plain args = true ->
+    VbarSplit.vbar_split (VbarSplit.join args) = Some args.
+Proof. exact VbarSplitProofs.vbar_split_join. Qed.
+Print Assumptions c03_argument_lists_are_the_written_ones.
 
 (* Every attribute map with distinct URL-safe names (name characters, starting
    with a word character) and values free of double quotes, written the way
